@@ -138,13 +138,32 @@ Example reading_here :
   filter (visible_failure_null (data_shape plan)) (sites plan) = visible_nulls plan.
 Proof. reflexivity. Qed.
 
-(** a promise fulfilled before its resolver returns (outside the theorems, inside the model and the
-    correspondence check): { a } with a: Int a prefilled promise finishes without an idle round *)
+(** a promise fulfilled before its resolver returns (tag >= pre_base; round 4: inside the theorems):
+    { a } with a: Int a prefilled promise finishes without an idle round, under any handler *)
 Example prefilled_needs_no_idle :
-  exists r, run (with_prefill fixed_flags (fun _ => true)) (fun _ _ => []) Query 1 3
-                [(key_a, FP (Some 0) false (Some (VLeaf 5)))] = Done r /\
+  exists r, run fixed_flags (fun _ _ => []) Query 1 3
+                [(key_a, FP (Some pre_base) false (Some (VLeaf 5)))] = Done r /\
             r_rounds r = 0%nat /\ r_promises r = 1%nat /\ r_data r = Some (JObj [(key_a, JInt 5)]).
 Proof. eexists. split; [vm_compute; reflexivity|]. repeat split. Qed.
+
+(** a prefilled promise next to an ordinary one, a failing prefilled promise beneath a non-null
+    type inside: the main theorem applies, one idle round *)
+Definition plan_pre : selset :=
+  [ (key_a, FP (Some (pre_base + 0)) false (Some (VObj [ (kx, FP (Some (pre_base + 1)) true None);
+                                                         (ky, FP (Some 2) false (Some (VLeaf 2))) ])));
+    (key_b, FP (Some 3) false (Some (VLeaf 3))) ].
+Example prefilled_conforms :
+  exists r, run fixed_flags (sigma_ranks [0; 0; 0; 0]%nat) Query 4 4 plan_pre = Done r /\
+            conforms plan_pre (r_data r) (r_errors r) /\
+            r_data r = Some (JObj [(key_a, JNull); (key_b, JInt 3)]) /\ r_rounds r = 1%nat /\ r_promises r = 4%nat.
+Proof.
+  destruct (run_conforms Query (sigma_ranks [0; 0; 0; 0]%nat) 4 4 plan_pre (sigma_ranks_fair _)) as (r & E & C & _).
+  - vm_compute. repeat constructor.
+  - vm_compute. repeat constructor.
+  - exists r. split; auto. split; auto.
+    assert (R : run fixed_flags (sigma_ranks [0; 0; 0; 0]%nat) Query 4 4 plan_pre = Done r) by exact E.
+    vm_compute in R. injection R as <-. repeat split.
+Qed.
 
 (** round 3.  The bridge to C01 on C01's own example (a schema with an interface, a union and
     [Int!]!; a document with a merged field, a named fragment, a fragment on an abstract type, an
@@ -206,4 +225,15 @@ Example bridge_nulls_here :
   null_paths (ExecSpec.failure_nulls (ExecSpec.exec_spec C01.ex_schema C01.ex_doc C01.ex_env C01.ex_fuel C01.ex_W)) =
   [[PKey (C01.nm "o")]; [PKey (C01.nm "l")]] /\
   site_paths (visible_nulls bridged_async) = [[PKey (C01.nm "o")]; [PKey (C01.nm "l")]].
+Proof. vm_compute. split; reflexivity. Qed.
+
+(** … with their candidates: o is explained by the error at o.n, l by the error at l.1 *)
+From ApiFu Require Import Fut.BridgeCands.
+Example bridge_candidates_here :
+  null_sites (ExecSpec.failure_nulls (ExecSpec.exec_spec C01.ex_schema C01.ex_doc C01.ex_env C01.ex_fuel C01.ex_W)) =
+  [ ([PKey (C01.nm "o")], [[PKey (C01.nm "o"); PKey (C01.nm "n")]]);
+    ([PKey (C01.nm "l")], [[PKey (C01.nm "l"); PIdx 1]]) ] /\
+  plan_sites (visible_nulls bridged_async) =
+  [ ([PKey (C01.nm "o")], [[PKey (C01.nm "o"); PKey (C01.nm "n")]]);
+    ([PKey (C01.nm "l")], [[PKey (C01.nm "l"); PIdx 1]]) ].
 Proof. vm_compute. split; reflexivity. Qed.
